@@ -7,6 +7,7 @@ import (
 	"go/types"
 	"os"
 	"path/filepath"
+	"regexp"
 	"sort"
 	"strconv"
 	"strings"
@@ -34,6 +35,8 @@ func main() {
 		os.Exit(cmdList(os.Args[2:]))
 	case "gen-accept":
 		os.Exit(cmdGenAccept(os.Args[2:]))
+	case "gen-typeinv":
+		os.Exit(cmdGenTypeInv(os.Args[2:]))
 	case "gen-gettype":
 		os.Exit(cmdGenGetType(os.Args[2:]))
 	case "errfuncs":
@@ -66,6 +69,7 @@ type target struct {
 	fn    *ssa.Function
 	con   *Contract
 	iface *Contract
+	sweep bool
 }
 
 // targetsFor: the functions under contract for a property
@@ -122,7 +126,73 @@ func (e *Engine) targetsFor(prop string) ([]target, []string) {
 		}
 		out = append(out, target{fn: fn, con: c})
 	}
+	// sweeps: every function of the named files (safety obligations; the function's own contract is used if it has one)
+	have := map[*ssa.Function]bool{}
+	for _, t := range out {
+		have[t.fn] = true
+	}
+	for _, sw := range e.cs.Sweeps {
+		if sw.Prop != prop {
+			continue
+		}
+		for _, fn := range e.sweepFunctions(sw) {
+			if have[fn] {
+				continue
+			}
+			have[fn] = true
+			out = append(out, target{fn: fn, con: e.contracts[keyOfFunction(fn)], sweep: true})
+		}
+	}
 	return out, problems
+}
+
+func (e *Engine) sweepFunctions(sw *SweepDecl) []*ssa.Function {
+	pkg := e.spkgs[sw.PkgPath]
+	if pkg == nil {
+		return nil
+	}
+	match := func(base string, list []string) bool {
+		for _, f := range list {
+			if f == "*" || f == base {
+				return true
+			}
+		}
+		return false
+	}
+	var out []*ssa.Function
+	seen := map[*ssa.Function]bool{}
+	var visit func(fn *ssa.Function)
+	visit = func(fn *ssa.Function) {
+		if fn == nil || len(fn.Blocks) == 0 || seen[fn] || fn.Synthetic != "" {
+			return
+		}
+		seen[fn] = true
+		base := filepath.Base(e.fset.Position(fn.Pos()).Filename)
+		if strings.HasSuffix(base, "_test.go") || !match(base, sw.Files) || match(base, sw.Except) || match(displayKey(keyOfFunction(fn)), sw.Except) {
+			return
+		}
+		if c := e.contracts[keyOfFunction(fn)]; c != nil && c.Trusted {
+			return
+		}
+		out = append(out, fn)
+		for _, a := range fn.AnonFuncs {
+			visit(a)
+		}
+	}
+	for _, m := range pkg.Members {
+		switch x := m.(type) {
+		case *ssa.Function:
+			visit(x)
+		case *ssa.Type:
+			if nt, ok := x.Type().(*types.Named); ok {
+				for i := 0; i < nt.NumMethods(); i++ {
+					visit(e.prog.FuncValue(nt.Method(i)))
+				}
+			}
+		}
+	}
+	sort.Slice(out, func(i, j int) bool { return keyOfFunction(out[i]) < keyOfFunction(out[j]) })
+	return out
 }
 
 type checkResult struct {
@@ -254,6 +324,14 @@ func cmdVC(args []string) int {
 		fmt.Println("ERROR", er)
 	}
 	ts, probs := e.targetsFor("all")
+	if strings.HasPrefix(pat, "sweep:") {
+		parts := strings.SplitN(pat[6:], ":", 2)
+		ts, probs = e.targetsFor(parts[0])
+		pat = ""
+		if len(parts) > 1 {
+			pat = parts[1]
+		}
+	}
 	for _, p := range probs {
 		fmt.Println("PROBLEM", p)
 	}
@@ -362,6 +440,26 @@ func splitFields(s string) []string {
 		out = append(out, cur.String())
 	}
 	return out
+}
+
+var reOrdSuffix = regexp.MustCompile(`(@ret\d+|@b\d+)$`)
+var rePreOrd = regexp.MustCompile(`@\d+\.`)
+var reNumbered = regexp.MustCompile(`/(nil|idx|assert|div|unreachable|makeslice|typeinv|cover)#`)
+
+// canonName: the stable part of an obligation name. Return/latch ordinals are dropped, and
+// obligations that are only numbered in instruction order (safety checks) have no stable name.
+func canonName(n string) string {
+	if reNumbered.MatchString(n) {
+		return ""
+	}
+	n = reOrdSuffix.ReplaceAllString(n, "")
+	if i := strings.Index(n, "/errflow#"); i >= 0 {
+		n = n[:i] + "/errflow"
+	}
+	if strings.Contains(n, "/pre#") {
+		n = rePreOrd.ReplaceAllString(n, ".")
+	}
+	return n
 }
 
 func loadBaseline(prop string) map[string]bool {
@@ -473,7 +571,7 @@ func report(e *Engine, prop, tier string, seed int, t0 time.Time, ts []target, r
 	hasRet := map[string]bool{}
 	defer func() { _ = deadCovers }()
 	for _, v := range vs {
-		present[v.Ob.Name] = true
+		present[canonName(v.Ob.Name)] = true
 		if v.Ob.Class == "cover" {
 			if v.Status == "cover-vacuous" {
 				if strings.HasSuffix(v.Ob.Name, "/cover#pre") {
@@ -607,9 +705,19 @@ func report(e *Engine, prop, tier string, seed int, t0 time.Time, ts []target, r
 		}
 	}
 	if rebaseline {
+		canon := map[string]bool{}
+		for _, n := range names {
+			if c := canonName(n); c != "" {
+				canon[c] = true
+			}
+		}
+		names = nil
+		for c := range canon {
+			names = append(names, c)
+		}
 		sort.Strings(names)
 		os.MkdirAll(filepath.Join(verifDir, "baseline"), 0o755)
-		os.WriteFile(filepath.Join(verifDir, "baseline", prop+".obligations"), []byte("# obligations discharged on the unchanged tree; regenerate only with `govc check "+prop+" --rebaseline`\n"+strings.Join(names, "\n")+"\n"), 0o644)
+		os.WriteFile(filepath.Join(verifDir, "baseline", prop+".obligations"), []byte("# carrying obligations (stable names) discharged on the unchanged tree; regenerate only with `govc check "+prop+" --rebaseline`\n"+strings.Join(names, "\n")+"\n"), 0o644)
 	}
 
 	// evidence
